@@ -3,7 +3,7 @@ import json
 import tgen
 import tmpl
 from tmpl import s_, js_src, js_coq, stmt_src, stmt_coq, attr_coq
-from core import CoreProp, ser, de, shrink_nodes, obsm_coq, FUNCS
+from core import CoreProp, ser, de, obsm_coq, FUNCS
 from common import run_harness, judge_in_coq, cq_bytes, cq_nat, cq_list, cq_bool, cq_opt, cq_pair, unhx, hx, BuildError
 
 # delimiter-heavy alphabet: the template engine's own delimiters, trim markers, comment markers, quotes,
@@ -438,7 +438,7 @@ class C06(CoreProp):
     prop_module = "Props.C06"
     prop_file = "Props/C06.v"
     coq_targets = ["Props/C06.vo", "Run/Judge_C06.vo", "Props/Tables.vo"]
-    sizes = {"quick": 1500, "thorough": 30000}
+    sizes = {"quick": 1500, "thorough": 24000}
     shard = 120
     design_ref = "DESIGN.md section 6/C06"
     rule = ("half of the cases are STATIC tag trees (block/inline, void/non-void incl. void elements with children, depth <= 8, "
